@@ -55,10 +55,24 @@ fn go<T: Elem + Clone>(ops: &Rows, mon: &mut Mon) -> Rows {
                 row = vec![4];
             }
             5 => {
-                let c = v.clone();
-                let old = std::mem::replace(&mut v, c);
-                drop(old);
-                row = vec![5];
+                // Clone may panic half-way (element type PC): the source stays as it was and the clones made so far are destroyed, nothing else
+                let snap_before = (v.as_ptr() as usize, v.len(), v.capacity());
+                match quiet(|| v.clone()) {
+                    Ok(c) => { let old = std::mem::replace(&mut v, c); drop(old); row = vec![5]; }
+                    Err(_) => {
+                        if (v.as_ptr() as usize, v.len(), v.capacity()) != snap_before || contents(&v) != before { mon.fail(format!("op{} a clone that panicked modified its source", k)); }
+                        // the unwinding destroyed exactly the clones made before the poisoned element
+                        let j = before.iter().position(|x| T::clone_panics(*x)).unwrap_or(0);
+                        let (mut got, mut want) = (take_drops(), before[..j].to_vec());
+                        got.sort(); want.sort();
+                        if got != want { mon.fail(format!("op{} a clone that panicked at element {} destroyed {:?}, std::Vec destroys the {} clones made so far {:?}", k, j, got, j, want)); }
+                        // complete the operation by hand (same result as a clone that does not panic), so that the history continues as the model's
+                        let fresh: Vec<T> = before.iter().map(|x| T::mk(*x)).collect();
+                        let old = std::mem::replace(&mut v, CVec::from(fresh));
+                        drop(old);
+                        row = vec![5];
+                    }
+                }
             }
             6 => {
                 let i = op[1] as usize;
@@ -129,6 +143,7 @@ pub fn run(params: &[i64], ops: &Rows, mon: &mut Mon) -> Rows {
         3 => go::<EZ>(ops, mon),
         4 => go::<E3>(ops, mon),
         5 => go::<A64>(ops, mon),
+        6 => go::<PC>(ops, mon),
         _ => vec![vec![-2]],
     }
 }
